@@ -452,7 +452,11 @@ func streamCase(idx int64, r *rand.Rand) {
 	ic := gclGrpc.StreamServerInterceptor(opts...)
 	nops := 1 + r.IntN(12)
 	var seq []string
-	handlerRet := fmt.Errorf("handler result")
+	var handlerRet error = fmt.Errorf("handler result")
+	if r.IntN(3) == 0 {
+		handlerRet = nil // a handler that carries on after refused operations and ends normally
+		rt.Count("stream_handlers_returning_nil", 1)
+	}
 	bad := false
 	// a second stream, through another interceptor with its own limiters and transport, is opened (and used) while the
 	// first one is in the middle of its handler: the first stream's later operations still belong to the first stream
